@@ -295,7 +295,15 @@ class AEval:
             if name in ("unwrap_or_else",):
                 return inner if good else self.apply(self.ev(args[0], env, depth), [] if is_opt else list(v[2] or []), depth)
             if name == "unwrap_or_default":
-                raise Unknown("unwrap_or_default")
+                if good:
+                    return inner
+                ty_ = e.get("ty", "")
+                if ty_ in ("u8", "u16", "u32", "u64", "usize"):
+                    return ("int", 0)
+                import re as _re
+                if _re.fullmatch(r"&(?:'\w+ )?\[u8\]", ty_):
+                    return ("array", [])
+                raise Unknown("unwrap_or_default of " + ty_)
             if name == "map":
                 if not good:
                     return v
@@ -380,7 +388,45 @@ class AEval:
                 return ("enum", self.SOME, [("tuple", [head, tail])])
             if name in ("iter", "to_vec", "as_slice", "as_ref"):
                 return v
+            if name == "contains" and len(args) == 1:
+                return ("bool", any(self.eq(x, args[0]) for x in xs))
             raise Unknown("method " + p)
+        if p.startswith("core::iter::traits::iterator::Iterator::") and name in ("fold", "copied", "cloned", "find", "find_map", "any", "all", "position"):
+            v = self.ev(e["recv"], env, depth)
+            if v[0] != "array":
+                raise Unknown("%s on an arbitrary iterator" % name)
+            if name in ("copied", "cloned"):
+                return v
+            if name in ("find", "find_map", "any", "all", "position"):
+                fv = self.ev(e["args"][0], env, depth)
+                for i_, x in enumerate(v[1]):
+                    r = self.apply(fv, [x], depth)
+                    if name == "find_map":
+                        if r[0] != "enum":
+                            raise Unknown("find_map result")
+                        if r[1] == self.SOME:
+                            return r
+                        continue
+                    if r[0] != "bool":
+                        raise Unknown("predicate of %s undetermined" % name)
+                    if name == "find" and r[1]:
+                        return ("enum", self.SOME, [x])
+                    if name == "position" and r[1]:
+                        return ("enum", self.SOME, [("int", i_)])
+                    if name == "any" and r[1]:
+                        return ("bool", True)
+                    if name == "all" and not r[1]:
+                        return ("bool", False)
+                if name == "any":
+                    return ("bool", False)
+                if name == "all":
+                    return ("bool", True)
+                return ("enum", self.NONE_, [])
+            acc = self.ev(e["args"][0], env, depth)
+            fv = self.ev(e["args"][1], env, depth)
+            for x in v[1]:
+                acc = self.apply(fv, [acc, x], depth)
+            return acc
         if name == "try_into" and "TryInto" in p:
             v = self.ev(e["recv"], env, depth)
             import re as _re
@@ -426,6 +472,10 @@ class AEval:
             if dk in ("Fn", "AssocFn"):
                 tgt = e.get("resolved") or e["path"]
                 return ("fnref", tgt, bool(e.get("resolved_local") if e.get("resolved") else e.get("local")))
+            c_ = self.facts.consts.get(e["path"])
+            if c_ is not None and "hir" in c_:
+                # a table written as a constant: its initialiser
+                return self.ev(c_["hir"], {}, depth + 1)
             raise Unknown("path " + e["path"])
         if k == "addrof":
             return self.ev(e["x"], env, depth)
@@ -467,7 +517,7 @@ class AEval:
                     a, b = [self.ev(x, env, depth) for x in e["args"]]
                     a, b = [(v[2] if v[0] == "newtype" else v) for v in (a, b)]
                     return ("range", a, b, True)
-                if f.get("local") and dk in ("Fn", "AssocFn"):
+                if (f.get("resolved_local") if f.get("resolved") else f.get("local")) and dk in ("Fn", "AssocFn"):
                     args = [self.ev(a, env, depth) for a in e["args"]]
                     return self.call_fn(f.get("resolved") or f["path"], args, depth + 1)
                 if dk in ("Fn", "AssocFn"):
@@ -548,6 +598,12 @@ class AEval:
         if k == "match":
             inner = is_try(e)
             if inner is not None:
+                # x? : the payload of Some / Ok, or an early return of None (Err residuals go through From: not modelled)
+                v = self.ev(inner, env, depth)
+                if v[0] == "enum" and v[1] in (self.SOME, self.OK) and v[2]:
+                    return v[2][0]
+                if v[0] == "enum" and v[1] == self.NONE_:
+                    raise Return(v)
                 raise Unknown("? operator")
             v = self.ev(e["scrut"], env, depth)
             for arm in e["arms"]:
@@ -608,6 +664,10 @@ class AEval:
                     return ("int", x << y)
                 if op == ">>":
                     return ("int", x >> y)
+            if op in ("|", "+", "^") and a == ("int", 0):
+                return b
+            if op in ("|", "+", "^", "<<", ">>", "-") and b == ("int", 0):
+                return a
             # big-endian assembly of opaque bytes by hand: (r0 << 24) | (r1 << 16) | (r2 << 8) | r3
             def terms(v):
                 if v[0] == "sym":
@@ -638,6 +698,13 @@ class AEval:
                 bits = {"u8": 8, "u16": 16, "u32": 32, "u64": 64, "usize": 64}.get(e["ty"])
                 if bits:
                     return ("int", v[1] & ((1 << bits) - 1))
+            if v[0] == "enum" and not v[2] and e.get("ty") in ("u8", "u16", "u32", "u64", "usize", "i32", "isize"):
+                # a fieldless enum cast to an integer is its discriminant
+                adt = self.facts.adts.get(v[1].rsplit("::", 1)[0])
+                if adt is not None and adt.get("dk") == "Enum":
+                    for var in adt["variants"]:
+                        if var["name"] == v[1].rsplit("::", 1)[1] and "discr" in var and not var["fields"]:
+                            return ("int", var["discr"])
             if v[0] == "sym" and e.get("ty") in ("u16", "u32", "u64", "usize") and (strip(e["x"]).get("ty") in ("u8", "&u8")):
                 return v   # widening of an opaque byte
             raise Unknown("cast")
